@@ -92,8 +92,13 @@ def run(chk: Check):
     okc = bool(aes) and aes[0][2][0] == KEY and "MODE_GCM" in S.show(aes[0][2][1]) and dict(aes[0][3]).get("nonce") == iv
     chk.decide(okc, "K-PROV", "aes-gcm-key-nonce", news[0] if news else ctx.func, "AES.new(key, MODE_GCM, nonce=stored IV)", found=S.show(aes[0])[:200] if aes else "none")
     # update(header), update(aad) before first decrypt
-    ups = [n for n in _own_nodes(ctx.func) if isinstance(n, ast.Call) and isinstance(n.func, ast.Attribute) and n.func.attr == "update"]
-    decs = [n for n in _own_nodes(ctx.func) if isinstance(n, ast.Call) and isinstance(n.func, ast.Attribute) and n.func.attr == "decrypt" and ast.unparse(n.func.value) == "cipher"]
+    ups = [n for n in _own_nodes(ctx.func) if isinstance(n, ast.Call) and isinstance(n.func, ast.Attribute) and n.func.attr == "update"
+           and any(a_[0] == "call" and a_[1] in ("ext:Crypto.Cipher.AES.new", "ext:_pystandalone.aes_256_gcm") for a_ in S.alternatives(R.expr(ctx, n.func.value)))]
+    def _is_cipher(node):
+        t_ = R.expr(ctx, node)
+        return any(a_[0] == "call" and a_[1] in ("ext:Crypto.Cipher.AES.new", "ext:_pystandalone.aes_256_gcm") for a_ in S.alternatives(t_))
+
+    decs = [n for n in _own_nodes(ctx.func) if isinstance(n, ast.Call) and isinstance(n.func, ast.Attribute) and n.func.attr == "decrypt" and _is_cipher(n.func.value)]
     ups.sort(key=lambda n: n.lineno)
     okh = False
     if ups and decs:
